@@ -233,7 +233,7 @@ def gen_runs(rng, g):
 
 
 def gen_cases(rng, tier):
-    n_base = 360 if tier == "quick" else 5000
+    n_base = 360 if tier == "quick" else 10000
     out = []
     for k in range(n_base):
         r = rng.fork(k)
